@@ -45,6 +45,29 @@ func cmdTTLRun(args []string) int {
 	expect := func(what string, ok bool) {
 		evs = append(evs, gate.Event{"e": "Expect", "what": what, "ok": ok, "engine": *engine, "t": time.Now().UnixNano() / 1e6 % 100000000})
 	}
+	finish := func() int {
+		w, err := os.Create(*out)
+		if err != nil {
+			fmt.Println(err)
+			return 2
+		}
+		bad := 0
+		for _, e := range evs {
+			if !e["ok"].(bool) {
+				bad++
+			}
+			bs, _ := json.Marshal(e)
+			w.Write(append(bs, '\n'))
+		}
+		w.WriteString("{\"e\":\"Reset\"}\n")
+		w.Close()
+		if *report != "" {
+			bs, _ := json.Marshal(map[string]interface{}{"behaviours": 1, "nontrivial": 1, "engine": *engine, "expectations": len(evs), "failed": bad})
+			os.WriteFile(*report, bs, 0644)
+		}
+		fmt.Printf("ttlrun engine=%s expectations=%d failed=%d\n", *engine, len(evs), bad)
+		return 0
+	}
 	wctx, cancel := context.WithCancel(ctx)
 	defer cancel()
 	wch, _ := env.B.Watch(wctx, env.Prefix+"/", 101)
@@ -61,6 +84,26 @@ func cmdTTLRun(args []string) int {
 			return false, ""
 		}
 		return true, string(r.Kv.Value)
+	}
+	if !eng.KV.SupportTTL() {
+		// engines without native TTL (TiKV): Event records expire inside compaction, by the marks earlier compactions left.
+		// A compaction whose mark has aged, followed by a compaction at a LOWER revision.
+		_, okp := create(1, "plain")
+		re, oke := create(2, "event-1")
+		expect("setup: a plain key and an Event are created", okp && oke)
+		env.WaitCommitted(re, time.Second)
+		_, c1err := env.B.Compact(ctx, 0)
+		expect("setup: first compaction (its mark: the Event's revision)", c1err == nil)
+		time.Sleep(2600 * time.Millisecond)
+		_, c2err := env.B.Compact(ctx, re-1)
+		expect("setup: second compaction at a lower revision, after the first mark has aged beyond the TTL", c2err == nil)
+		p, _ := present(2)
+		expect("the Event older than the TTL reads as absent", !p)
+		_, okr := create(2, "event-1-again")
+		expect("... and is gone wholly (index and versions together): it can be created again", okr)
+		p, v := present(1)
+		expect("the plain key is untouched", p && v == "plain")
+		return finish()
 	}
 	t0 := time.Now()
 	_, ok1 := create(1, "plain")
@@ -135,25 +178,5 @@ func cmdTTLRun(args []string) int {
 		}
 	}
 	expect("expiry produces no watch event (the only DELETE event is the one explicit delete of the scenario)", deletes == 1)
-	w, err := os.Create(*out)
-	if err != nil {
-		fmt.Println(err)
-		return 2
-	}
-	bad := 0
-	for _, e := range evs {
-		if !e["ok"].(bool) {
-			bad++
-		}
-		bs, _ := json.Marshal(e)
-		w.Write(append(bs, '\n'))
-	}
-	w.WriteString("{\"e\":\"Reset\"}\n")
-	w.Close()
-	if *report != "" {
-		bs, _ := json.Marshal(map[string]interface{}{"behaviours": 1, "nontrivial": 1, "engine": *engine, "expectations": len(evs), "failed": bad})
-		os.WriteFile(*report, bs, 0644)
-	}
-	fmt.Printf("ttlrun engine=%s expectations=%d failed=%d\n", *engine, len(evs), bad)
-	return 0
+	return finish()
 }
